@@ -23,7 +23,8 @@ Inductive skey := SK (n : nat) (k : kind) | RW (t : nat) | SLast.
 
 Record cert := Cert { c_id : nat; c_kid : nat; c_due : bool }.
 
-Inductive value := VKey (k : nat) | VCrt (c : cert) | VMeta (c : nat) | VRaw | VLast (recent : bool).
+(** [VMetaA]: metadata that carries ACME renewal information (written by updateARI) *)
+Inductive value := VKey (k : nat) | VCrt (c : cert) | VMeta (c : nat) | VMetaA (c : nat) | VRaw | VLast (recent : bool).
 
 Inductive result := ROk | RErr | RPanic.
 (** how one attempt (the closure f of obtainCert/renewCert) ended: nil, an error that does not
@@ -388,7 +389,8 @@ Definition exec (t : nat) (th : thread) (s : shared) (f : fault) (p : pc) : opti
       if bad then Some (set_pc th PAGet, s, E (OLoad k) 2)
       else match sto s k with
            | None => Some (set_pc th PAGet, s, E (OLoad k) 1)
-           | Some _ => Some (match c_prog c with PAri true => set_pc th (PUnlock ROk) | _ => set_pc th PAGet end, s, E (OLoad k) 0)
+           | Some (VMetaA _) => Some (set_pc th (PUnlock ROk), s, E (OLoad k) 0)   (* storage has newer ARI *)
+           | Some _ => Some (set_pc th PAGet, s, E (OLoad k) 0)
            end
   | PAGet =>
       if ferr then Some (set_pc th (PUnlock RErr), s, E OAriGet 2)
@@ -403,7 +405,9 @@ Definition exec (t : nat) (th : thread) (s : shared) (f : fault) (p : pc) : opti
   | PAStore =>
       let k := SK (c_vk c) KMeta in
       if bad then Some (set_pc th (PUnlock RErr), s, E (OStore k) 2)
-      else Some (set_pc th (PUnlock ROk), s, E (OStore k) 0)
+      else Some (set_pc th (PUnlock ROk),
+                 with_sto s (sput (sto s) k (Some (VMetaA (match sto s k with Some (VMeta x) | Some (VMetaA x) => x | _ => 0 end)))),
+                 E (OStore k) 0)
   end.
 
 (** the operation a thread performs at pc [p] (for the event of a panicking call) *)
